@@ -64,11 +64,17 @@ type step struct {
 type docSpec struct {
 	subset bool
 	steps  []step
+	// features: Font.SetFeatures on every font object of the document before its first face (the shaper
+	// then substitutes glyphs that no character maps to, e.g. small capitals)
+	features string
 }
 
 func (d docSpec) String() string {
 	var sb strings.Builder
 	fmt.Fprintf(&sb, "pdf.New(100,80,{Compress:true SubsetFonts:%v})", d.subset)
+	if d.features != "" {
+		fmt.Fprintf(&sb, "; every font with SetFeatures(%q)", d.features)
+	}
 	for _, st := range d.steps {
 		if st.newPage {
 			sb.WriteString("; NewPage(100,80)")
@@ -105,6 +111,9 @@ func render(spec docSpec, cfonts map[int]*canvas.Font) (data []byte, m *docModel
 		cf, ok := cfonts[st.font]
 		if !ok {
 			cf = fontMenu[st.font].fresh()
+			if spec.features != "" {
+				cf.SetFeatures(spec.features)
+			}
 			cfonts[st.font] = cf
 		}
 		k := &kinds[st.kind]
@@ -208,6 +217,29 @@ func familyPairs(name string, pairStrings []string, subsets []bool) fw.Family {
 			{newPage: d[4] == 1, font: d[7], kind: pairKinds[d[3]], s: pairStrings[d[1]], shift: true},
 		}}
 	}
+	return fw.Family{
+		Name: name, N: oracle.Prod(radices...),
+		Desc:  func(i int64) string { return decode(i).String() },
+		Check: func(i int64, r *fw.R) { checkDoc(decode(i), map[int]*canvas.Font{}, r, name) },
+	}
+}
+
+// familyFeaturePairs: two texts in one document with one font whose OpenType features make the shaper
+// substitute glyphs outside the character map (small capitals, old-style figures): the characters a
+// reader recovers for them come from what was laid out, for the horizontal and for the vertical font
+// object of the font alike.
+func familyFeaturePairs() fw.Family {
+	strs := []string{"hamburg", "fix 12", "a"}
+	feats := []string{"smcp", "c2sc,onum"}
+	radices := []int{len(strs), len(strs), len(pairKinds), len(pairKinds), 2, 2, len(fontMenu), len(feats)}
+	decode := func(i int64) docSpec {
+		d := oracle.Digits(i, radices...)
+		return docSpec{subset: d[5] == 0, features: feats[d[7]], steps: []step{
+			{font: d[6], kind: pairKinds[d[2]], s: strs[d[0]]},
+			{newPage: d[4] == 1, font: d[6], kind: pairKinds[d[3]], s: strs[d[1]], shift: true},
+		}}
+	}
+	name := "PDF, two texts with one font that has OpenType features set (smcp; c2sc,onum): 3 x 3 strings x {line, vertical upright}^2 x {same page, new page} x SubsetFonts on/off x 3 fonts"
 	return fw.Family{
 		Name: name, N: oracle.Prod(radices...),
 		Desc:  func(i int64) string { return decode(i).String() },
